@@ -44,6 +44,7 @@ type State struct {
 	now       string
 	loopEpoch bool
 	prev      *State // state before a havoc-everything call: ghost locations keep their value
+	prevExcept map[string][]string // ... except these ghost addresses (heap -> addresses), which the callee's contract lists
 }
 
 func (s State) clone() State {
@@ -229,7 +230,11 @@ func (p *Path) heapIn(st *State, name string) string {
 	if first && st.prev != nil && strings.HasPrefix(name, "Mem_") {
 		// arbitrary code cannot touch ghost state
 		prevH := p.heapIn(st.prev, name)
-		p.assume(fmt.Sprintf("(forall ((a Ref)) (! (=> (or (= (ftag a) (- 4)) (>= (ftag a) 1000000)) (= (select %s a) (select %s a))) :pattern ((select %s a))))", t, prevH, t))
+		exc := ""
+		for _, a := range st.prevExcept[name] {
+			exc += fmt.Sprintf(" (not (= a %s))", a)
+		}
+		p.assume(fmt.Sprintf("(forall ((a Ref)) (! (=> (and (or (= (ftag a) (- 4)) (>= (ftag a) 1000000))%s) (= (select %s a) (select %s a))) :pattern ((select %s a))))", exc, t, prevH, t))
 	}
 	return t
 }
